@@ -33,12 +33,15 @@ inductive Stmt where
   | setSelf (f : Nat) (e : Expr)
   | guardNotNone (c : Expr) (s : Stmt)           -- `if c is not None: s`
   | raiseUnlessIn (e : Expr) (allowed : List Val) -- `if e not in {...}: raise`
+  | warn                                         -- `warnings.warn(...)`: raises iff warnings are escalated to errors
   deriving DecidableEq, Repr
 
 structure Env where
   store : Store
   self : Frame
   args : Frame
+  /-- the process runs with warnings escalated to exceptions (`-W error`) -/
+  strict : Bool
 
 def Expr.eval (ρ : Env) : Expr → Val
   | .const v => v
@@ -53,6 +56,7 @@ def Stmt.exec (ρ : Env) : Stmt → Env × Bool
   | .setSelf f e => ({ ρ with self := setF ρ.self f (e.eval ρ) }, false)
   | .guardNotNone c s => if (c.eval ρ).isSome then s.exec ρ else (ρ, false)
   | .raiseUnlessIn e allowed => if allowed.contains (e.eval ρ) then (ρ, false) else (ρ, true)
+  | .warn => (ρ, ρ.strict)
 
 /-- Run statements in order, stopping at the first raise (the environment reached so far is kept). -/
 def execAll (ρ : Env) : List Stmt → Env × Bool
@@ -92,39 +96,42 @@ structure Res where
 `__enter__` (may raise: `__exit__` is not called), run the body, call `__exit__` on every exit path of
 the body; all generated `__exit__`s return False (the translator rejects anything else), so an exception
 raised in the body propagates after `__exit__` has run. -/
-def Prog.run : Prog → Store → List Store → Res
+def Prog.run (strict : Bool) : Prog → Store → List Store → Res
   | .skip, σ, tr => ⟨σ, false, tr⟩
   | .probe, σ, tr => ⟨σ, false, σ :: tr⟩
   | .raise, σ, tr => ⟨σ, true, tr⟩
   | .seq p q, σ, tr =>
-      let r := p.run σ tr
-      if r.raised then r else q.run r.store r.trace
+      let r := p.run strict σ tr
+      if r.raised then r else q.run strict r.store r.trace
   | .withC d args body, σ, tr =>
-      let r0 := execAll ⟨σ, fun _ => none, args⟩ d.m.init
+      let r0 := execAll ⟨σ, fun _ => none, args, strict⟩ d.m.init
       if r0.2 then ⟨r0.1.store, true, tr⟩ else
       let r1 := execAll r0.1 d.m.enter
       if r1.2 then ⟨r1.1.store, true, tr⟩ else
-      let r := body.run r1.1.store tr
+      let r := body.run strict r1.1.store tr
       let r2 := execAll { r1.1 with store := r.store } d.m.exit
       ⟨r2.1.store, r2.2 || r.raised, r.trace⟩
 
 /-- The store seen inside the block (after `__enter__`), if construction and entry succeed. -/
-def enteredStore (d : ClassDesc) (args : Frame) (σ : Store) : Option Store :=
-  let r0 := execAll ⟨σ, fun _ => none, args⟩ d.m.init
+def enteredStore (d : ClassDesc) (args : Frame) (σ : Store) (strict : Bool := false) : Option Store :=
+  let r0 := execAll ⟨σ, fun _ => none, args, strict⟩ d.m.init
   if r0.2 then none else
   let r1 := execAll r0.1 d.m.enter
   if r1.2 then none else some r1.1.store
 
-/-- A class restores: construction does not touch the store (and if it raises nothing was changed);
-`__enter__` and `__exit__` do not raise; and `__exit__`, run on the instance `__enter__` left behind with
-the store as it was after `__enter__`, gives back the store from before the block — every field of every
-class. -/
-def Restores (d : ClassDesc) : Prop := ∀ (σ : Store) (args : Frame),
-  (execAll ⟨σ, fun _ => none, args⟩ d.m.init).1.store = σ ∧
-  ((execAll ⟨σ, fun _ => none, args⟩ d.m.init).2 = false →
-    (execAll (execAll ⟨σ, fun _ => none, args⟩ d.m.init).1 d.m.enter).2 = false ∧
-    (execAll (execAll (execAll ⟨σ, fun _ => none, args⟩ d.m.init).1 d.m.enter).1 d.m.exit).2 = false ∧
-    (execAll (execAll (execAll ⟨σ, fun _ => none, args⟩ d.m.init).1 d.m.enter).1 d.m.exit).1.store = σ)
+/-- A class restores: construction does not touch the store (whether or not it raises); if `__enter__`
+raises (a warning escalated to an error) it has not changed the store — Python does not call `__exit__`
+then; otherwise `__exit__`, run on the instance `__enter__` left behind with the store as it was after
+`__enter__`, does not raise and gives back the store from before the block — every field of every class.
+For every store, all arguments, with and without escalated warnings. -/
+def Restores (d : ClassDesc) : Prop := ∀ (σ : Store) (args : Frame) (strict : Bool),
+  (execAll ⟨σ, fun _ => none, args, strict⟩ d.m.init).1.store = σ ∧
+  ((execAll ⟨σ, fun _ => none, args, strict⟩ d.m.init).2 = false →
+    ((execAll (execAll ⟨σ, fun _ => none, args, strict⟩ d.m.init).1 d.m.enter).2 = true →
+      (execAll (execAll ⟨σ, fun _ => none, args, strict⟩ d.m.init).1 d.m.enter).1.store = σ) ∧
+    ((execAll (execAll ⟨σ, fun _ => none, args, strict⟩ d.m.init).1 d.m.enter).2 = false →
+      (execAll (execAll (execAll ⟨σ, fun _ => none, args, strict⟩ d.m.init).1 d.m.enter).1 d.m.exit).2 = false ∧
+      (execAll (execAll (execAll ⟨σ, fun _ => none, args, strict⟩ d.m.init).1 d.m.enter).1 d.m.exit).1.store = σ))
 
 def Prog.classes : Prog → List ClassDesc
   | .skip | .probe | .raise => []
